@@ -22,7 +22,8 @@ NUM_RE = re.compile(r"^[+-]?(\d+\.?\d*|\.\d+)([eE][+-]?\d+)?$")
 
 def spell_number(n, rnd):
     m = {"int": rnd.choice(["7", "12", "0", "3"]), "dec": rnd.choice(["1.5", "0.25", "12.75"]), "leaddot": rnd.choice([".5", ".25"]),
-         "traildot": rnd.choice(["4.", "10."])}[n["mant"]]
+         "traildot": rnd.choice(["4.", "10."]), "huge": rnd.choice(["3000000000", "8000000000", "4294967296"]),
+         "small": rnd.choice(["0.0004", "2.00049", "0.12345"])}[n["mant"]]
     e = {"": "", "e": "e1", "E": "E1", "e+": "e+1", "e-": "e-1"}[n["exp"]]
     return n["sign"] + m + e
 
@@ -252,7 +253,8 @@ def run(rep, tier, seed):
         cases.append({"k": f"c04u-{j}", "xml": root + body + "</svg>", "what": "use:" + c["tkind"], "case": c})
     for j, c in enumerate(fam_cases["vocab"]):
         sn = VOCAB[c["snippet"] - 1]
-        xml = {"svg": f"<svg>{sn}</svg>", "svg-g": f'<svg><g id="outer">{sn}</g></svg>', "fragment": sn}[c["wrap"]]
+        xml = {"svg": f"<svg>{sn}</svg>", "svg-g": f'<svg><g id="outer">{sn}</g></svg>', "fragment": sn,
+               "svg-attrs": f'<svg id="top" class="q r" style="background: #eee" data-k="1" preserveAspectRatio="xMidYMid">{sn}</svg>'}[c["wrap"]]
         cases.append({"k": f"c04v-{j}", "xml": xml, "what": f"vocab:{c['snippet']}", "case": c})
     res = vlib.run_cases([{"k": c["k"], "xml": c["xml"], "cfg": {}} for c in cases])
     for i, c in enumerate(cases):
